@@ -3,6 +3,8 @@ import KpModel.Db.MergeInv
 import KpModel.Db.MergeLww
 import KpModel.Db.MergeLwwG
 import KpModel.Db.MergeLwwH
+import KpModel.Db.MergePlace
+import KpModel.Db.MergeSorted
 import KpModel.Db.MergeSpec
 /-!
 # C14 — merge keeps the newest version of every node and every historical version
@@ -284,5 +286,98 @@ example : merge 100 exHDst exHSrc = .ok (exHRes, [(.entryUpdated, 10)]) := by
 example : (findEntry exHDst.root [10]).map histTimes = some [10] ∧ (findEntry exHSrc.root [10]).map histTimes = some [15]
     ∧ (findEntry exHRes.root [10]).map histTimes = some [20, 15, 10] := by
   refine ⟨?_, ?_, ?_⟩ <;> simp [findEntry, getPath, exHDst, exHSrc, exHRes, Node.children, Node.uuid, histTimes]
+
+/-- **C14 (last mover wins, for the whole merge)**: both replicas hold the entry `u` (the same root group on both sides, with a
+    UUID of its own), both carry a location-changed time for it, and the source's is strictly later.  If the merge reaches the
+    source's entry outside every group the destination has deleted (`liveL`: no group above it in the source has a tombstone in
+    the destination), then wherever `find_node_location` finds the entry in the result, its parent is the group that holds it in
+    the source — the last element of the location path (none = directly below the root).  Followed through the whole merge with
+    "every group that has a child `u` is the group `X`" (`Db/MergePlace.lean`): other nodes' moves, creations and updates keep
+    it, the visit of the source's entry moves it (or finds it already there), later passes find the two parents equal and leave
+    it, the deletion passes only remove. -/
+theorem C14_entry_last_mover_wins (now : Int) (dst src d' : Db) (evs : List Event)
+    (hr : dst.root.isGroup = true) (hn : (uuidsL dst.root.children).Nodup)
+    (hrs : src.root.isGroup = true) (hns : (uuidsL src.root.children).Nodup)
+    (hru : src.root.uuid = dst.root.uuid)
+    (hfd : dst.root.uuid ∉ uuidsL dst.root.children) (hfs : src.root.uuid ∉ uuidsL src.root.children)
+    (h : merge now dst src = .ok (d', evs))
+    (u : Nat) (qd qs qr : List Nat) (de se : Entry)
+    (hld : findLoc dst.root u = some qd) (hd : findEntry dst.root (qd ++ [u]) = some de)
+    (hls : findLoc src.root u = some qs) (hs : findEntry src.root (qs ++ [u]) = some se)
+    (dl sl : Int) (hdl : de.d.times.loc = some dl) (hsl : se.d.times.loc = some sl) (hgt : sl > dl)
+    (hlive : u ∈ liveL dst.tombs src.root.children)
+    (hlr : findLoc d'.root u = some qr) : qr.getLast? = qs.getLast? :=
+  merge_entry_moved now dst src d' evs ⟨hr, hn⟩ ⟨hrs, hns⟩ hru hfd hfs h u qd qs qr de se hld hd hls hs dl sl hdl hsl hgt hlive hlr
+
+/-- **C14 (the destination's move stands when the source's is not later)**: under the same premises with the source's
+    location-changed time not later than the destination's, the entry's parent in the result is the group that holds it in the
+    destination. -/
+theorem C14_entry_destination_move_stands (now : Int) (dst src d' : Db) (evs : List Event)
+    (hr : dst.root.isGroup = true) (hn : (uuidsL dst.root.children).Nodup)
+    (hrs : src.root.isGroup = true) (hns : (uuidsL src.root.children).Nodup)
+    (hru : src.root.uuid = dst.root.uuid)
+    (hfd : dst.root.uuid ∉ uuidsL dst.root.children) (hfs : src.root.uuid ∉ uuidsL src.root.children)
+    (h : merge now dst src = .ok (d', evs))
+    (u : Nat) (qd qs qr : List Nat) (de se : Entry)
+    (hld : findLoc dst.root u = some qd) (hd : findEntry dst.root (qd ++ [u]) = some de)
+    (hls : findLoc src.root u = some qs) (hs : findEntry src.root (qs ++ [u]) = some se)
+    (dl sl : Int) (hdl : de.d.times.loc = some dl) (hsl : se.d.times.loc = some sl) (hle : ¬ sl > dl)
+    (hlr : findLoc d'.root u = some qr) : qr.getLast? = qd.getLast? :=
+  merge_entry_stays now dst src d' evs ⟨hr, hn⟩ ⟨hrs, hns⟩ hru hfd hfs h u qd qs qr de se hld hd hls hs dl sl hdl hsl hle hlr
+
+/-- the premises of `C14_entry_last_mover_wins` are met by a non-trivial pair: the source moved the entry, later, into a group
+    the destination does not have yet -/
+def exMvDst : Db := ⟨.group 1 0 ⟨some 5, none, 0⟩ [.group 2 0 ⟨some 5, none, 0⟩ [.entry ⟨⟨10, 7, ⟨some 20, some 20, 0⟩⟩, some []⟩]], []⟩
+def exMvSrc : Db := ⟨.group 1 0 ⟨some 5, none, 0⟩ [.group 2 0 ⟨some 5, none, 0⟩ [],
+  .group 3 0 ⟨some 5, none, 0⟩ [.entry ⟨⟨10, 7, ⟨some 20, some 25, 0⟩⟩, some []⟩]], []⟩
+def exMvRes : Db := ⟨.group 1 0 ⟨some 5, none, 0⟩ [.group 2 0 ⟨some 5, none, 0⟩ [],
+  .group 3 0 ⟨some 5, none, 0⟩ [.entry ⟨⟨10, 7, ⟨some 20, some 25, 0⟩⟩, some []⟩]], []⟩
+set_option linter.unusedSimpArgs false in
+set_option maxRecDepth 8000 in
+example : merge 100 exMvDst exMvSrc = .ok (exMvRes, [(.groupCreated, 3), (.entryLocationUpdated, 10)]) := by
+  simp [merge, exMvDst, exMvSrc, exMvRes, mergeRoot, groupMergeData, groupCount, groupCountL, mergePasses, mergeGroup, mergeEntries,
+    mergeSubgroups, mergeEntryStep, refreshPath, relocate, removeNode, findLoc, findLocL, findLocG, findEntry, findGroup, getPath, updatePath, updFirst,
+    entryUpdate, entryDiverged, Entry.setLoc, Node.setLoc, St.ev,
+    mergeDeletions, deleteEntries, deleteGroups, deletionFuel, tombsContain, Node.children, Node.uuid, Node.isGroup, Node.setChildren,
+    bind, Except.bind, pure, Except.pure]
+set_option linter.unusedSimpArgs false in
+example : findLoc exMvDst.root 10 = some [2] ∧ findLoc exMvSrc.root 10 = some [3] ∧ findLoc exMvRes.root 10 = some [3]
+    ∧ (10 : Nat) ∈ liveL exMvDst.tombs exMvSrc.root.children := by
+  refine ⟨?_, ?_, ?_, ?_⟩ <;>
+  simp [findLoc, findLocL, findLocG, exMvDst, exMvSrc, exMvRes, Node.children, Node.uuid, liveL, liveN, tombsContain]
+
+/-- **C14 (what exists only in the source is created under the same parent)**: the destination does not hold the UUID `u` (of an
+    entry or of a group), the source does (the same root group on both sides, with a UUID of its own).  Wherever
+    `find_node_location` finds it in the result, its parent is the group that holds it in the source.  (That it *is* in the
+    result unless tombstoned is `C14_source_nodes_created`.) -/
+theorem C14_created_under_same_parent (now : Int) (dst src d' : Db) (evs : List Event)
+    (hr : dst.root.isGroup = true) (hn : (uuidsL dst.root.children).Nodup)
+    (hrs : src.root.isGroup = true) (hns : (uuidsL src.root.children).Nodup)
+    (hru : src.root.uuid = dst.root.uuid)
+    (hfd : dst.root.uuid ∉ uuidsL dst.root.children) (hfs : src.root.uuid ∉ uuidsL src.root.children)
+    (h : merge now dst src = .ok (d', evs))
+    (u : Nat) (qs qr : List Nat) (hnd : u ∉ uuidsL dst.root.children)
+    (hls : findLoc src.root u = some qs) (hlr : findLoc d'.root u = some qr) : qr.getLast? = qs.getLast? :=
+  merge_created_under_parent now dst src d' evs ⟨hr, hn⟩ ⟨hrs, hns⟩ hru hfd hfs h u qs qr hnd hls hlr
+
+-- non-vacuity: the group 3 of `exMvSrc` is not in `exMvDst`
+set_option linter.unusedSimpArgs false in
+example : (3 : Nat) ∉ uuidsL exMvDst.root.children ∧ findLoc exMvSrc.root 3 = some [] ∧ findLoc exMvRes.root 3 = some [] := by
+  refine ⟨by decide, ?_, ?_⟩ <;>
+  simp [findLoc, findLocL, findLocG, exMvSrc, exMvRes, Node.children, Node.uuid]
+
+/-- **C14 (every history stays newest first, no time twice)**: when the history of every entry of both replicas is strictly
+    descending by modification time (`allE HistSorted`: every entry of the tree), so is the history of every entry of the result —
+    an entry the merge did not update keeps its history, an updated one gets the union `History::merge_with` builds
+    (`history_merge_spec`), a created one the source's.  With `C14_history_union`: every version of both sides, each time once,
+    newest first. -/
+theorem C14_histories_sorted (now : Int) (dst src d' : Db) (evs : List Event)
+    (hr : dst.root.isGroup = true) (hn : (uuidsL dst.root.children).Nodup)
+    (hD : allE HistSorted dst.root) (hS : allE HistSorted src.root) (h : merge now dst src = .ok (d', evs)) :
+    allE HistSorted d'.root :=
+  merge_histories_sorted now dst src d' evs ⟨hr, hn⟩ hD hS h
+
+example : allE HistSorted exHDst.root ∧ allE HistSorted exHSrc.root ∧ allE HistSorted exHRes.root := by
+  simp [allE, allEL, HistSorted, histTimes, exHDst, exHSrc, exHRes, SortedDesc]
 
 end Kp.Merge
